@@ -110,6 +110,18 @@ func (rs *RelayState) UpdateRelayForByIpState(vpnIp netip.Addr, state int) {
 	}
 }
 
+// SetRelayForByIpRemoteIndex records the peer's index of a relay that has not learned it yet, the state is left alone
+func (rs *RelayState) SetRelayForByIpRemoteIndex(vpnIp netip.Addr, remoteIdx uint32) {
+	rs.Lock()
+	defer rs.Unlock()
+	if r, ok := rs.relayForByAddr[vpnIp]; ok {
+		newRelay := *r
+		newRelay.RemoteIndex = remoteIdx
+		rs.relayForByIdx[newRelay.LocalIndex] = &newRelay
+		rs.relayForByAddr[newRelay.PeerAddr] = &newRelay
+	}
+}
+
 func (rs *RelayState) UpdateRelayForByIdxState(idx uint32, state int) {
 	rs.Lock()
 	defer rs.Unlock()
